@@ -365,7 +365,7 @@ class PlanEngine(Engine):
                 # not one of the recognised shapes: identify the input by its layout/config features
                 from sim.engines.itemhist import ItemHistoryEngine  # pylint: disable=import-outside-toplevel
                 steps = ['DuplicateSub' if (x == 'Duplicate' and scenario.get('dup_subgraph')) else x for x in pipe]
-                sig = 'append-differs:features=' + ItemHistoryEngine.features(
+                sig = f'append-differs:pipeline={scenario["pipeline"]}:features=' + ItemHistoryEngine.features(
                     {'proj': scenario['proj'], 'cfg': scenario['cfg'], 'steps': steps,
                      'dup_kernels': scenario['dup_kernels']})
             run.violate('append-differs', f'plan says append {sorted(a - w)[:4]} which the conversion did not write; '
@@ -429,7 +429,10 @@ class PlanEngine(Engine):
             if scenario['pipeline'] == 'idem':
                 # no item is created, removed or renamed: the file-level replicate flag follows from the
                 # reference graph (a file is replicated iff one of its graph items is configured so)
-                ref = BG.reference_graph(scenario['proj'], cfg)
+                # the CLI seeds the graph with every routine whose config entry has the driver role
+                seeds = list(cfg['seeds']) + [k for k, v in cfg['routines'].items() if v.get('role') == 'driver' and
+                                              k.split('#')[-1] not in [x.split('#')[-1] for x in cfg['seeds']]]
+                ref = BG.reference_graph(scenario['proj'], dict(cfg, seeds=seeds))
                 file_of = {}
                 for f in scenario['proj']['files']:
                     for kind, name in f['units']:
